@@ -510,6 +510,283 @@ Proof.
     + apply Forall_rev. exact Ivalid.
     + apply Forall_rev. exact Idels.
 Qed.
+
+(* ================= the width bound ================= *)
+Hypothesis Hwidth : 1 <= w_width o.
+Let w := w_width o.
+
+Lemma bnd_succ a c n b : Bnd a -> dec_at line a = Some (c, n) -> Bnd b -> a < b -> a + n <= b.
+Proof.
+  intros Ha Hd Hb Hlt. pose proof (bnd_reach a b Ha Hb ltac:(lia)) as R.
+  inversion R as [| a' c' n' b' Ha' Hd' Hr']; subst; [lia|].
+  rewrite Hd in Hd'. inversion Hd'; subst. apply reach_le in Hr'. exact Hr'.
+Qed.
+
+(* why the peek-ahead loop stopped at e, and how far it may extend a kept piece *)
+Definition stop_reason (lc e : Z) : Prop :=
+  L <= e \/ (w_keep o = true /\ w <= e - lc) \/
+  (exists c n, dec_at line e = Some (c, n) /\
+     (is_delim (w_delims o) c = false \/ (w_keep o = true /\ e + n - lc > w))).
+
+Lemma peek_spec2 lc : 0 <= lc -> forall fuel q, Bnd q -> lc <= q -> L - q <= Z.of_nat fuel ->
+  exists e, peek fuel line o lc q = PeekOk e /\ (w_keep o = true -> e = q \/ e - lc <= w) /\ stop_reason lc e.
+Proof.
+  intros Hlc. induction fuel as [|f IH]; intros q Hb Hq Hf; rewrite peek_unfold; pose proof (bnd_range q Hb) as Rq.
+  - replace (q <? L) with false by lia. exists q. split; [reflexivity|]. split; [auto|]. left. lia.
+  - destruct (q <? L) eqn:Hlt; [|exists q; split; [reflexivity|]; split; [auto|]; left; lia].
+    rewrite (u64_id (q - lc)) by lia. fold w.
+    destruct (w_keep o && (q - lc >=? w)) eqn:K1.
+    { exists q. split; [reflexivity|]. split; [auto|]. right; left.
+      apply andb_true_iff in K1. destruct K1 as [K1a K1b]. split; [exact K1a | lia]. }
+    destruct (bnd_next q Hb ltac:(lia)) as (c & n & Hd & Hb' & Hn & Hle). rewrite Hd.
+    destruct (is_delim (w_delims o) c) eqn:Hc.
+    2: { exists q. split; [reflexivity|]. split; [auto|]. right; right. exists c, n. auto. }
+    rewrite (u64_id (q + n - lc)) by lia.
+    destruct (w_keep o && (q + n - lc >? w)) eqn:K2.
+    { exists q. split; [reflexivity|]. split; [auto|]. right; right. exists c, n. split; [exact Hd|]. right.
+      apply andb_true_iff in K2. destruct K2 as [K2a K2b]. split; [exact K2a | lia]. }
+    destruct (IH (q + n) Hb' ltac:(lia) ltac:(lia)) as (e & He & Hk & Hs).
+    exists e. split; [exact He|]. split; [|exact Hs].
+    intros Hkeep. right. rewrite Hkeep in K2. simpl in K2. destruct (Hk Hkeep) as [-> | H]; lia.
+Qed.
+
+Definition near (lc x : Z) : Prop := x <= lc \/ x - lc < w.
+
+Record InvW (s : wstate) : Prop := {
+  w_pos : s_pos s - s_last_cut s < w;
+  w_pds : Forall (near (s_last_cut s)) (s_pds s);
+  w_pfd : forall c n, dec_at line (s_pos s) = Some (c, n) -> is_delim (w_delims o) c = true ->
+          near (s_last_cut s) (s_pfd s);
+  w_lines : Forall (fun p => width_ok w p = true) (s_lines s)
+}.
+
+Lemma near_mono lc lc' x : lc <= lc' -> near lc x -> near lc' x.
+Proof. unfold near. lia. Qed.
+
+Lemma width_short a b : 0 <= a <= b -> b <= L -> b - a <= w -> width_ok w (sub a b) = true.
+Proof. intros. unfold width_ok. rewrite sub_length by lia. apply orb_true_iff. left. lia. Qed.
+
+Lemma width_single a c n : 0 <= a < L -> dec_at line a = Some (c, n) -> width_ok w (sub a (a + n)) = true.
+Proof.
+  intros Ha Hd. pose proof (dec_at_len a c n ltac:(lia) Hd) as [Hn Hle].
+  unfold width_ok. apply orb_true_iff. right.
+  pose proof (sub_length a (a + n) ltac:(lia) Hle) as Hlen.
+  destruct (length (sub a (a + n))) as [|f] eqn:El; [lia|].
+  assert (sub a (a + n) <> []) as Hne by (intros E; rewrite E in El; discriminate).
+  rewrite (count_cps_S f _ Hne), (decode_sub a (a + n) c n ltac:(lia) Hd ltac:(lia) ltac:(lia)).
+  rewrite skipn_sub by lia. rewrite sub_nil. destruct f; reflexivity.
+Qed.
+
+(* the three facts needed when a piece is cut, for the state components written by [step] *)
+Section Cut.
+Variables (lc pc n c : Z) (pds : list Z) (pfd : Z).
+Hypothesis Hpc : Bnd pc.
+Hypothesis Hlc : Bnd lc.
+Hypothesis Hle : lc <= pc.
+Hypothesis HpcL : pc < L.
+Hypothesis Hd : dec_at line pc = Some (c, n).
+Hypothesis Hin : pc - lc < w.
+Hypothesis Htrig : w <= pc + n - lc.
+Hypothesis Hpds : Forall Bnd pds.
+Hypothesis Hnear : Forall (near lc) pds.
+Hypothesis Hpfd1 : is_delim (w_delims o) c = true -> near lc pfd.
+Hypothesis Hpfd2 : is_delim (w_delims o) c = false -> pfd = pc + n.
+
+Let hard := if (pc + n - lc >? w) && (pc >? lc) then pc else pc + n.
+Let pos_cut := lookback pds lc hard.
+
+Lemma cut_facts :
+  Bnd pos_cut /\ lc < pos_cut /\
+  (pos_cut - lc <= w \/ (pc = lc /\ pos_cut = pc + n)).
+Proof.
+  pose proof (bnd_range _ Hpc). pose proof (bnd_range _ Hlc).
+  destruct (bnd_next pc Hpc HpcL) as (c' & n' & Hd' & Hb' & Hn & Hle').
+  rewrite Hd in Hd'. inversion Hd'; subst c' n'.
+  assert (Bnd hard /\ lc < hard /\ (hard - lc <= w \/ (pc = lc /\ hard = pc + n))) as (Hh & Hhl & Hhw).
+  { unfold hard. destruct ((pc + n - lc >? w) && (pc >? lc)) eqn:E.
+    - split; [exact Hpc|]. split; [lia|]. left. lia.
+    - split; [exact Hb'|]. split; [lia|]. lia. }
+  destruct (lookback_spec lc hard pds Hpds Hh Hhl ltac:(lia)) as (Hcut & Hcl & Hsrc).
+  fold pos_cut in Hcut, Hcl, Hsrc.
+  split; [exact Hcut|]. split; [exact Hcl|].
+  destruct Hsrc as [Hi | ->]; [|exact Hhw].
+  rewrite Forall_forall in Hnear. specialize (Hnear _ Hi). unfold near in Hnear. left. lia.
+Qed.
+
+Variable e : Z.
+Hypothesis He : peek (length line) line o lc pos_cut = PeekOk e.
+
+Lemma cut_e : Bnd e /\ pos_cut <= e /\ DelimRun pos_cut e /\
+  (w_keep o = true -> e = pos_cut \/ e - lc <= w) /\ stop_reason lc e.
+Proof.
+  destruct cut_facts as (Hcut & Hcl & _). pose proof (bnd_range _ Hlc). pose proof (bnd_range _ Hcut).
+  destruct (peek_spec lc (length line) pos_cut Hcut ltac:(unfold L; lia)) as (e1 & He1 & Hrun & Hbe).
+  destruct (peek_spec2 lc ltac:(lia) (length line) pos_cut Hcut ltac:(lia) ltac:(unfold L; lia)) as (e2 & He2 & Hk & Hs).
+  rewrite He in He1, He2. inversion He1; inversion He2; subst e1 e2.
+  repeat split; try assumption; try apply Hbe.
+  apply reach_le. apply delim_reach. exact Hrun.
+Qed.
+
+Lemma cut_pds : Forall (near e) pds.
+Proof.
+  destruct cut_facts as (_ & Hcl & _). destruct cut_e as (_ & Hce & _).
+  eapply Forall_impl; [|exact Hnear]. intros x. apply near_mono. lia.
+Qed.
+
+Lemma cut_pfd : forall c' n', dec_at line e = Some (c', n') -> is_delim (w_delims o) c' = true -> near e pfd.
+Proof.
+  intros c' n' Hd' Hc'.
+  destruct cut_facts as (Hcut & Hcl & _). destruct cut_e as (Hbe & Hce & Hrun & _ & Hstop).
+  pose proof (bnd_range _ Hpc). pose proof (bnd_range _ Hlc). pose proof (bnd_range _ Hbe).
+  destruct (is_delim (w_delims o) c) eqn:Hc.
+  - apply (near_mono lc); [lia | apply Hpfd1; reflexivity].
+  - rewrite (Hpfd2 eq_refl). unfold near.
+    destruct (Z_le_gt_dec (pc + n) e) as [Hge | Hlt]; [left; lia|]. exfalso.
+    (* e < pc + n, both boundaries: e <= pc *)
+    assert (e <= pc) as Hepc.
+    { destruct (Z_le_gt_dec e pc); [assumption|].
+      pose proof (bnd_succ pc c n e Hpc Hd Hbe ltac:(lia)). lia. }
+    destruct (Z.eq_dec e pc) as [-> | Hne].
+    + rewrite Hd in Hd'. inversion Hd'; subst. congruence.
+    + assert (e < pc) as Hlt' by lia.
+      pose proof (bnd_succ e c' n' pc Hbe Hd' Hpc Hlt') as Hsucc.
+      destruct Hstop as [S1 | [[_ S2] | (c2 & n2 & Hd2 & [S3 | [_ S4]])]]; try lia.
+      * rewrite Hd' in Hd2. inversion Hd2; subst. congruence.
+      * rewrite Hd' in Hd2. inversion Hd2; subst. lia.
+Qed.
+
+Lemma cut_piece_keep : w_keep o = true -> width_ok w (sub lc e) = true.
+Proof.
+  intros Hk. destruct cut_facts as (Hcut & Hcl & Hw). destruct cut_e as (Hbe & Hce & _ & Hext & _).
+  pose proof (bnd_range _ Hlc). pose proof (bnd_range _ Hbe). pose proof (bnd_range _ Hcut).
+  destruct (Hext Hk) as [-> | Hsmall']; [|apply width_short; lia].
+  destruct Hw as [Hw | [E1 E2]]; [apply width_short; lia|].
+  rewrite E2, <- E1. apply (width_single pc c n); [lia | exact Hd].
+Qed.
+
+Lemma cut_piece_skip : width_ok w (sub lc pos_cut) = true.
+Proof.
+  destruct cut_facts as (Hcut & Hcl & Hw).
+  pose proof (bnd_range _ Hlc). pose proof (bnd_range _ Hcut).
+  destruct Hw as [Hw | [E1 E2]]; [apply width_short; lia|].
+  rewrite E2, <- E1. apply (width_single pc c n); [lia | exact Hd].
+Qed.
+End Cut.
+
+Lemma step_specW s : Inv s -> InvW s ->
+  match step line o s with StScan s' => InvW s' | StCut s' => InvW s' | _ => True end.
+Proof.
+  intros [Ipos Ilc Ile Ipfd Ipds _ _ _ _ _] [Wpos Wpds Wpfd Wlines].
+  cbv beta zeta delta [step]. change (Z.of_nat (length line)) with L.
+  destruct (s_pos s <? L) eqn:Hlt; [|exact I].
+  destruct (bnd_next _ Ipos ltac:(lia)) as (c & n & Hd & Hb' & Hn & Hle). rewrite Hd.
+  pose proof (bnd_range _ Ipos) as Rpos. pose proof (bnd_range _ Ilc) as Rlc. pose proof (bnd_range _ Ipfd) as Rpfd.
+  specialize (Wpfd c n Hd).
+  destruct (find_delimiter (w_delims o) c) as [i|] eqn:Ef.
+  - (* the character is a delimiter *)
+    assert (is_delim (w_delims o) c = true) as Hc by (unfold is_delim; rewrite Ef; reflexivity).
+    specialize (Wpfd Hc). cbv iota beta.
+    rewrite (u64_id (s_pfd s)), (u64_id (s_pos s + n - s_last_cut s)) by lia. fold w.
+    assert (Forall Bnd (set_nth i (s_pfd s) (s_pds s))) as Hpds' by (apply Forall_set_nth; assumption).
+    assert (Forall (near (s_last_cut s)) (set_nth i (s_pfd s) (s_pds s))) as Hnear' by (apply Forall_set_nth; assumption).
+    destruct (s_pos s + n - s_last_cut s <? w) eqn:Hw.
+    + constructor; simpl; try assumption; try lia. intros; assumption.
+    + pose proof (cut_e (s_last_cut s) (s_pos s) n c _ Ipos Ilc Ile ltac:(lia) Hd Wpos ltac:(lia) Hpds' Hnear') as CE.
+      pose proof (cut_pds (s_last_cut s) (s_pos s) n c _ Ipos Ilc Ile ltac:(lia) Hd Wpos ltac:(lia) Hpds' Hnear') as CP.
+      pose proof (cut_pfd (s_last_cut s) (s_pos s) n c _ (s_pfd s) Ipos Ilc Ile ltac:(lia) Hd Wpos ltac:(lia) Hpds' Hnear'
+                    (fun _ => Wpfd) ltac:(congruence)) as CF.
+      pose proof (cut_piece_keep (s_last_cut s) (s_pos s) n c _ Ipos Ilc Ile ltac:(lia) Hd Wpos ltac:(lia) Hpds' Hnear') as CK.
+      pose proof (cut_piece_skip (s_last_cut s) (s_pos s) n c _ Ipos Ilc Ile ltac:(lia) Hd Wpos ltac:(lia) Hpds' Hnear') as CS.
+      cbv zeta in CE, CP, CF, CK, CS.
+      destruct (peek _ line o _ _) as [e| |] eqn:He; try exact I.
+      destruct (CE e eq_refl) as (Hbe & Hce & _). pose proof (bnd_range _ Hbe) as Re.
+      pose proof (cut_facts (s_last_cut s) (s_pos s) n c _ Ipos Ilc Ile ltac:(lia) Hd Wpos ltac:(lia) Hpds' Hnear') as (Hcut & Hcl & _).
+      cbv zeta in Hcut, Hcl. pose proof (bnd_range _ Hcut) as Rcut.
+      match goal with |- context [u64 (?a - s_last_cut s)] => idtac end.
+      rewrite (u64_id (e - s_last_cut s)) by lia.
+      match goal with |- context [lookback ?p ?l ?h] => set (pos_cut := lookback p l h) in * end.
+      rewrite (u64_id (pos_cut - s_last_cut s)), (u64_id (e - pos_cut)) by lia.
+      fold (sub (s_last_cut s) e). fold (sub (s_last_cut s) pos_cut). fold (sub pos_cut e).
+      destruct (w_keep o) eqn:Hk; cbv iota beta; constructor; simpl; try lia;
+        try (apply CP; reflexivity); try (apply CF; reflexivity).
+      * constructor; [apply CK; reflexivity | exact Wlines].
+      * constructor; [apply CS | exact Wlines].
+  - (* not a delimiter *)
+    assert (is_delim (w_delims o) c = false) as Hc by (unfold is_delim; rewrite Ef; reflexivity).
+    cbv iota beta.
+    rewrite (w32_id (s_pos s + n)), (u64_id (s_pos s + n - s_last_cut s)) by lia. fold w.
+    destruct (s_pos s + n - s_last_cut s <? w) eqn:Hw.
+    + constructor; simpl; try assumption; try lia. intros. unfold near. lia.
+    + pose proof (cut_e (s_last_cut s) (s_pos s) n c _ Ipos Ilc Ile ltac:(lia) Hd Wpos ltac:(lia) Ipds Wpds) as CE.
+      pose proof (cut_pds (s_last_cut s) (s_pos s) n c _ Ipos Ilc Ile ltac:(lia) Hd Wpos ltac:(lia) Ipds Wpds) as CP.
+      pose proof (cut_pfd (s_last_cut s) (s_pos s) n c _ (s_pos s + n) Ipos Ilc Ile ltac:(lia) Hd Wpos ltac:(lia) Ipds Wpds
+                    ltac:(congruence) (fun _ => eq_refl)) as CF.
+      pose proof (cut_piece_keep (s_last_cut s) (s_pos s) n c _ Ipos Ilc Ile ltac:(lia) Hd Wpos ltac:(lia) Ipds Wpds) as CK.
+      pose proof (cut_piece_skip (s_last_cut s) (s_pos s) n c _ Ipos Ilc Ile ltac:(lia) Hd Wpos ltac:(lia) Ipds Wpds) as CS.
+      cbv zeta in CE, CP, CF, CK, CS.
+      destruct (peek _ line o _ _) as [e| |] eqn:He; try exact I.
+      destruct (CE e eq_refl) as (Hbe & Hce & _). pose proof (bnd_range _ Hbe) as Re.
+      pose proof (cut_facts (s_last_cut s) (s_pos s) n c _ Ipos Ilc Ile ltac:(lia) Hd Wpos ltac:(lia) Ipds Wpds) as (Hcut & Hcl & _).
+      cbv zeta in Hcut, Hcl. pose proof (bnd_range _ Hcut) as Rcut.
+      rewrite (u64_id (e - s_last_cut s)) by lia.
+      match goal with |- context [lookback ?p ?l ?h] => set (pos_cut := lookback p l h) in * end.
+      rewrite (u64_id (pos_cut - s_last_cut s)), (u64_id (e - pos_cut)) by lia.
+      fold (sub (s_last_cut s) e). fold (sub (s_last_cut s) pos_cut). fold (sub pos_cut e).
+      destruct (w_keep o) eqn:Hk; cbv iota beta; constructor; simpl; try lia;
+        try (apply CP; reflexivity); try (apply CF; reflexivity).
+      * constructor; [apply CK; reflexivity | exact Wlines].
+      * constructor; [apply CS | exact Wlines].
+Qed.
+
+Definition GoodW (r : stepres) : Prop := exists s', r = StDone s' /\ Inv s' /\ InvW s' /\ s_pos s' = L.
+
+Lemma scan_goodW k : forall f2 s, Inv s -> InvW s -> L - s_pos s < Z.of_nat f2 ->
+  (forall s', Inv s' -> InvW s' -> s_last_cut s < s_last_cut s' -> GoodW (k s')) ->
+  GoodW (scan_loop line o k f2 s).
+Proof.
+  induction f2 as [|f IH]; intros s I W Hf Hk.
+  - pose proof (bnd_range _ (inv_pos s I)). lia.
+  - simpl. pose proof (step_spec s I) as P. pose proof (step_specW s I W) as PW.
+    destruct (step line o s) as [s'|s'|s'| |]; unfold step_post in P; try contradiction.
+    + destruct P as (I' & Hp & Hl). apply IH; [exact I' | exact PW | lia|].
+      intros s'' I'' W'' H. apply Hk; [exact I'' | exact W'' | lia].
+    + destruct P as (I' & Hl). apply Hk; assumption.
+    + destruct P as (-> & Hp). exists s. split; [reflexivity|]. split; [exact I|]. split; [exact W|].
+      pose proof (bnd_range _ (inv_pos s I)). lia.
+Qed.
+
+Lemma wrap_goodW n : L + 1 < Z.of_nat n -> forall f1 s, Inv s -> InvW s -> L - s_last_cut s < Z.of_nat f1 ->
+  GoodW (wrap_loop n line o f1 s).
+Proof.
+  intros Hn. induction f1 as [|f IH]; intros s I W Hf.
+  - pose proof (bnd_range _ (inv_lc s I)). lia.
+  - simpl. apply scan_goodW; [exact I | exact W | |].
+    + pose proof (bnd_range _ (inv_pos s I)). lia.
+    + intros s' I' W' H. apply IH; [exact I' | exact W' | lia].
+Qed.
+
+Lemma invW_init : InvW (init_state o).
+Proof.
+  constructor.
+  - simpl. lia.
+  - apply Forall_forall. intros x Hx. apply repeat_spec in Hx. subst. left. simpl. lia.
+  - intros. left. simpl. lia.
+  - constructor.
+Qed.
+
+Lemma wrap_width : exists ps ds, wrap_lines line o = WOk ps ds /\ Forall (fun p => width_ok w p = true) ps.
+Proof.
+  unfold wrap_lines.
+  destruct (wrap_goodW (S (S (length line))) ltac:(unfold L; lia) (S (S (length line))) (init_state o) inv_init invW_init
+              ltac:(simpl; unfold L; lia)) as (s & Es & I & W & Hp).
+  rewrite Es. destruct I as [Ipos Ilc Ile _ _ _ _ _ _ _]. destruct W as [Wpos _ _ Wlines].
+  pose proof (bnd_range _ Ilc) as Rlc.
+  rewrite (u64_id (s_pos s - s_last_cut s)) by lia. fold (sub (s_last_cut s) (s_pos s)).
+  destruct ((s_last_cut s <? s_pos s) || (s_pos s =? 0)).
+  - eexists _, _. split; [reflexivity|]. simpl rev. apply Forall_app. split; [apply Forall_rev; exact Wlines|].
+    constructor; [|constructor]. apply width_short; lia.
+  - eexists _, _. split; [reflexivity|]. apply Forall_rev. exact Wlines.
+Qed.
 End Line.
 
 (* ================= statements without the section context ================= *)
@@ -522,6 +799,13 @@ Theorem wrap_lines_correct line o : utf8_valid line = true -> short_line line ->
     Forall (fun p => utf8_valid p = true) ps /\ Forall (del_ok o) ds.
 Proof.
   intros Hv Hs. apply wrap_correct; [exact Hs | apply valid_reach; exact Hv].
+Qed.
+
+(* the width bound: every piece has at most WIDTH bytes or is a single code point *)
+Theorem wrap_lines_width line o : utf8_valid line = true -> short_line line -> 1 <= w_width o ->
+  exists ps ds, wrap_lines line o = WOk ps ds /\ Forall (fun p => width_ok (w_width o) p = true) ps.
+Proof.
+  intros Hv Hs Hw. apply wrap_width; [exact Hs | apply valid_reach; exact Hv | exact Hw].
 Qed.
 
 (* ---------- the collector's join ---------- *)
